@@ -122,11 +122,8 @@ func gobEncodeItem(it Item) ([]byte, error) {
 	}
 	if IsObject(it) && !IsNil(it) {
 		switch it.GetType() {
-		case IRIType:
-			var bytes []byte
-			bytes, err = it.(IRI).GobEncode()
-			b.Write(bytes)
-		case "", ObjectType, ArticleType, AudioType, DocumentType, EventType, ImageType, NoteType, PageType, VideoType:
+		// NOTE: an item that reaches this point is not an IRI, even if its type says so
+		case IRIType, "", ObjectType, ArticleType, AudioType, DocumentType, EventType, ImageType, NoteType, PageType, VideoType:
 			err = OnObject(it, func(ob *Object) error {
 				bytes, err := ob.GobEncode()
 				b.Write(bytes)
